@@ -211,6 +211,9 @@ func modelSortLess(viaInterface bool, stable bool) func(x *Exec, st *State, fr *
 		k := Var("sk", SInt)
 		st.assume(Forall([]*Term{k}, Implies(Or(Cmp("<", k, SlOff(s)), Cmp(">=", k, Arith("+", SlOff(s), n))),
 			Eq(Select(row, k), Select(oldRow, k))), []*Term{Select(row, k)}))
+		// every old element is somewhere in the new contents (triggered by reads of the old contents)
+		oldAt := Select(oldRow, Sidx(SlOff(s), i))
+		st.assume(Forall([]*Term{i}, Implies(inr(i), And(inr(ii), Eq(Select(row, Sidx(SlOff(s), ii)), oldAt))), []*Term{oldAt}))
 		// no inversion in the new contents
 		lessNew := x.boolSummary(st, lessFn, lessBind, append(append([]Val{}, recv...), Val{T: j}, Val{T: i}))
 		st.assume(Forall([]*Term{i, j}, Implies(And(inr(i), inr(j), Cmp("<", i, j)), Not(lessNew))))
